@@ -1,6 +1,7 @@
 package props
 
 import (
+	"errors"
 	"fmt"
 	"reflect"
 	"regexp"
@@ -282,8 +283,44 @@ func c13ErrorTexts(b *core.B) {
 	}
 }
 
+// c13NestedFailure: a partial that includes itself fails at the innermost level, inside a helper
+// block; the error (its line numbers included) is the same with the cache off, cold and warm.
+func c13NestedFailure(b *core.B) {
+	const node = "<%= cap() { %>\n<%= if (depth == 0) { %><%= boom() %><% } else { %>\n\n<%= partial(\"node\", {depth: depth - 1}) %><% } %>\n<% } %>"
+	const input = `<%= partial("node", {depth: 2}) %>`
+	if !b.Begin("nested failure in a self-including partial: " + node) {
+		return
+	}
+	b.NonTrivialStr("nested-failure")
+	b.Count("self-including-partial-failing-at-the-innermost-level")
+	var outs []string
+	pan := core.Guard(func() {
+		defer func() { plush.CacheEnabled = false }()
+		for _, cache := range []bool{false, false, true, true, true, false} {
+			plush.CacheEnabled = cache
+			ctx := progCtx(nil)
+			ctx.Set("boom", func() (string, error) { return "", errors.New("boom") })
+			ctx.Set("partialFeeder", func(string) (string, error) { return node, nil })
+			s, err := plush.Render(input, ctx)
+			outs = append(outs, fmt.Sprintf("cache=%v: %q %v", cache, s, err))
+		}
+	})
+	if pan != nil {
+		b.Violate(pan.Sig(), pan.Value)
+		return
+	}
+	strip := func(s string) string { return s[strings.Index(s, ": ")+2:] }
+	for _, o := range outs[1:] {
+		if strip(o) != strip(outs[0]) {
+			b.Violate("nondeterministic-error|cache-on-vs-off|self-including-partial", fmt.Sprintf("%s; %s", outs[0], o))
+			return
+		}
+	}
+}
+
 func c13Run(b *core.B) {
 	if b.Batch == 0 {
+		c13NestedFailure(b)
 		c13SameNamedTypes(b)
 		c13MadeInTheTemplate(b)
 		c13ErrorTexts(b)
